@@ -24,9 +24,9 @@ import (
 )
 
 type exprSite struct {
-	name   string // Lean def
-	fn     string // "Recv.name" or "name"
-	kind   string // "cond": if-condition containing anchor; "assign": RHS of `anchor = …` / `anchor := …`; "arg": first argument of the call `anchor(…)`;
+	name string // Lean def
+	fn   string // "Recv.name" or "name"
+	kind string // "cond": if-condition containing anchor; "assign": RHS of `anchor = …` / `anchor := …`; "arg": first argument of the call `anchor(…)`;
 	// "ret": the single result of a `return` whose text contains anchor; "incr": RHS of `anchor += …`
 	anchor string
 	index  int // which of the matches (source order)
